@@ -85,9 +85,29 @@ def list_sort(eng, l, key=None, reverse=False):
     l.items[:] = b_sorted(eng, l, key=key, reverse=reverse).items
 
 
+@_m
+def deque_appendleft(eng, l, x):
+    l.items.insert(0, x)
+
+
+@_m
+def deque_popleft(eng, l):
+    if not l.items:
+        raise _exc(eng, "IndexError", "pop from an empty deque")
+    return l.items.pop(0)
+
+
+@_m
+def deque_extendleft(eng, l, xs):
+    for x in iterate(eng, xs):
+        l.items.insert(0, x)
+
+
+# (collections.deque is modelled as a list with the deque's extra methods)
 LIST_METHODS = dict(append=list_append, extend=list_extend, insert=list_insert, pop=list_pop,
                     remove=list_remove, index=list_index, count=list_count, copy=list_copy,
-                    reverse=list_reverse, clear=list_clear, sort=list_sort)
+                    reverse=list_reverse, clear=list_clear, sort=list_sort,
+                    appendleft=deque_appendleft, popleft=deque_popleft, extendleft=deque_extendleft)
 
 
 @_m
